@@ -12,6 +12,31 @@ ENG = {
 
 # id: (engine, category, technique, level text, level note, design ref)
 CHECKS = {
+ "C09": ("E3", "model_checking",
+   "deviation-bounded exhaustive enumeration over a grammar of valid OCI and blob policy documents: every base document x every single rule-violating edit (one operator per rule) x every pair of edits, validity-preserving edits, plus exhaustive assembly from hand-labelled component alphabets; independent reference validator (iff oracle)",
+   "Every generated document is validated by the real OCIDocument/BlobDocument.Validate and through verifier.NewVerifierWithOptions and the verdict is compared (iff) with a reference validator that works on hand-written valid/invalid labels of the component alphabets; every accepted statement must yield a level enforcing integrity unless it is skip.",
+   "Trusted: the labelled alphabets in harness/c09/tables.go and the reference validator; documents outside the component alphabets are not covered.",
+   "DESIGN.md section 5 C09"),
+ "C15": ("E2+E3", "model_checking",
+   "explicit-state breadth-first search over store/read histories (81 operations over 9 URLs x 6 bundles, depth 3 quick / 4 thorough, states deduplicated on the canonical directory content) on the real FileCache against a map model with expiry and a containment snapshot; exhaustive corruption (every truncation, every byte x 2 flips, structural swaps) of stored entries",
+   "Each transition replays the shortest history into a fresh cache directory, applies one real Set/Get, snapshots the scratch parent and probes every URL; results are compared with map[url]bundle with expiry. Every corruption of a stored entry must yield an error, a miss, or a bundle byte-equal to what the oracle decodes from the file.",
+   "Trusted: the map model and the JSON/x509 decoding of the oracle in harness/c15; clock changes during a run are outside the bound.",
+   "DESIGN.md section 5 C15"),
+ "C16": ("E3", "model_checking",
+   "exhaustive enumeration of a path-traversal name grammar (114 names quick / 774 thorough) x plugin-root depth x pre-state x 9-11 operations (Get+GetMetadata, Uninstall, Install from file/directory, AddPlugin, end-to-end Verify with JWS/COSE) on real directories with sentinel executables; before/after tree snapshot oracle",
+   "Every case runs the real CLIManager / verifier on a private scratch tree seeded with sentinel executables at every location a naive or cleaned join could reach; unacceptable names must return an error, execute nothing (marker files) and leave the whole tree byte-identical; acceptable names may only touch <root>/<name>.",
+   "Trusted: the single-path-component predicate and the snapshot differ in harness/c16; a bare stat outside the root is not observable.",
+   "DESIGN.md section 5 C16"),
+ "C17": ("E3", "model_checking",
+   "exhaustive enumeration of plugin behaviours (5 commands x exit x stdout kinds x stderr kinds; oversize and timing/context cases crossed with representatives), each run as a real process through the real CLIPlugin; classification-model oracle, RSS cap monitor in worker subprocesses, 20 s bounded-delay monitor",
+   "Every behaviour tuple is executed as a real plugin process; success implies exit 0 and a well-formed reply (metadata: all mandatory fields, supported contract version, matching name); failing processes must yield the structured error or a typed error; oversized output is never accepted and never buffered beyond a coarse RSS bound; a cancelled/expired call returns within 20 s.",
+   "Trusted: the classification model in harness/c17; the 20 s and 4x-cap thresholds are deliberately coarse measurements on an exhaustively enumerated behaviour set.",
+   "DESIGN.md section 5 C17"),
+ "C20": ("E2", "model_checking",
+   "explicit-state search to fix-point over install/uninstall histories: from every reachable plugin-root tree (canonical hash of paths, modes, bytes) every operation (versions x overwrite x 13-21 source shapes + uninstall) is applied through the real CLIManager with real script plugins; reference installer + tree equality + file/directory differential",
+   "The state graph is closed (CLIManager keeps no memory, the state is the tree), so all histories of any length are covered: every transition is a real Install/Uninstall whose result, resulting tree and the metadata answered by the installed plugin are compared with a reference installer working on the generator's description of the source.",
+   "Trusted: the reference installer and the hand-ordered semver alphabet in harness/c20.",
+   "DESIGN.md section 5 C20"),
  "C04": ("E3", "model_checking",
    "exhaustive enumeration of leaf subjects from an attribute grammar (mandatory C/ST/O present or absent x optional subsets, duplicate / multi-valued / unknown-OID / escaped-value shapes) x ~45 identity lists derived from each subject x format on the real verifier; structural subset oracle on the generator's attribute lists",
    "One certificate and signature per subject; every derived identity list (permutations, subsets, supersets, near misses, CA subjects, unknown prefixes, wildcard) is verified by the real verifier with the trust anchor present, so identity alone decides authenticity; pass/fail is compared with a subset relation on the generator's AST (equivalence for clean subjects, implication for odd shapes).",
